@@ -128,6 +128,10 @@ func ParsePutCommand(cmd redcon.Command) (*Put, error) {
 
 	args := cmd.Args[4:]
 	for len(args) > 0 {
+		// Every option except NX and XX takes a value.
+		if opt := strings.ToUpper(util.BytesToString(args[0])); opt != "NX" && opt != "XX" && len(args) < 2 {
+			return nil, fmt.Errorf("%w: %s needs an argument", ErrInvalidArgument, opt)
+		}
 		switch arg := strings.ToUpper(util.BytesToString(args[0])); arg {
 		case "NX":
 			p.SetNX()
@@ -294,6 +298,10 @@ func (g *GetEntry) Command(ctx context.Context) *redis.StringCmd {
 
 func ParseGetEntryCommand(cmd redcon.Command) (*GetEntry, error) {
 	if len(cmd.Args) < 2 {
+		return nil, errWrongNumber(cmd.Args)
+	}
+	// The key is mandatory.
+	if len(cmd.Args) < 3 {
 		return nil, errWrongNumber(cmd.Args)
 	}
 
@@ -606,6 +614,10 @@ func ParseScanCommand(cmd redcon.Command) (*Scan, error) {
 
 	args := cmd.Args[4:]
 	for len(args) > 0 {
+		// MATCH and COUNT take a value.
+		if opt := strings.ToUpper(util.BytesToString(args[0])); (opt == "MATCH" || opt == "COUNT") && len(args) < 2 {
+			return nil, fmt.Errorf("%w: %s needs an argument", ErrInvalidArgument, opt)
+		}
 		switch arg := strings.ToUpper(util.BytesToString(args[0])); arg {
 		case "MATCH":
 			s.SetMatch(util.BytesToString(args[1]))
@@ -622,6 +634,9 @@ func ParseScanCommand(cmd redcon.Command) (*Scan, error) {
 		case "RC":
 			s.SetReplica()
 			args = args[1:]
+		default:
+			// An unknown option. Without this case the loop never consumes it and spins forever.
+			return nil, fmt.Errorf("%w: %s", ErrInvalidArgument, arg)
 		}
 	}
 
@@ -865,7 +880,7 @@ func ParseLockCommand(cmd redcon.Command) (*Lock, error) {
 	// EX or PX are optional.
 	if len(cmd.Args) > 4 {
 		if len(cmd.Args) == 5 {
-			return nil, fmt.Errorf("%w: %s needs a numerical argument", ErrInvalidArgument, util.BytesToString(cmd.Args[5]))
+			return nil, fmt.Errorf("%w: %s needs a numerical argument", ErrInvalidArgument, util.BytesToString(cmd.Args[4]))
 		}
 
 		switch arg := strings.ToUpper(util.BytesToString(cmd.Args[4])); arg {
